@@ -1,7 +1,7 @@
 #!/bin/bash
 # confirm_seed.sh <seed-src-dir> <property> <name>
 # Confirms a seeded change in a scratch worktree (outside /repo and /verif): it compiles, the existing
-# tests of the touched packages pass, the demonstration fails with it and passes without it.
+# test suite (all packages) passes, the demonstration fails with it and passes without it.
 # On success copies it to /verif/seeded/<name>/ with meta.json.
 set -u
 src="$1"; prop="$2"; name="$3"
@@ -32,7 +32,8 @@ withp=$(go test -vet=off -count=1 -timeout 300s -run "^${testname}\$" ./$demodir
 echo "$withp" | grep -q 'FAIL' || { echo "DEMO DOES NOT FAIL WITH THE CHANGE: $withp"; exit 1; }
 rm $demodir/zz_seed_demo_test.go
 pk=""; for d in $touched; do pk="$pk ./$d/"; done
-suite=$(go test -vet=off -count=1 -timeout 600s $pk 2>&1 | tail -8)
+# the WHOLE existing suite, not only the touched packages (round 7: a change in nsqlookupd made the nsqadmin tests hang)
+suite=$(go test -vet=off -count=1 -timeout 600s ./... 2>&1 | grep -v "no test files" | tail -8)
 echo "$suite" | grep -q 'FAIL' && { echo "EXISTING TESTS FAIL WITH THE CHANGE: $suite"; exit 1; }
 mkdir -p /verif/seeded/$name
 cp $src/patch.diff /verif/seeded/$name/patch.diff
@@ -45,7 +46,7 @@ notes=open('/verif/seeded/%s/notes.md'%name).read() if True else ''
 json.dump({"property":prop,"breaks":prop,"demo_package_dir":demodir,"demo_test":testname,
  "needs_to_manifest":"see notes.md (written by the independent sub-agent that produced the change)",
  "confirmed":{"worktree":"scratch git worktree of /repo HEAD under /tmp (removed afterwards)",
-   "ran":["go build ./...","go test -run ^%s$ ./%s/ without the patch: ok"%(testname,demodir),"same with the patch: FAIL","go test%s with the patch: ok"%pk]}},
+   "ran":["go build ./...","go test -run ^%s$ ./%s/ without the patch: ok"%(testname,demodir),"same with the patch: FAIL","go test ./... with the patch: ok"]}},
  open('/verif/seeded/%s/meta.json'%name,'w'),indent=1)
 PY
 echo "CONFIRMED $name"
